@@ -277,7 +277,7 @@ func c13ShowPath(c *Ctx, p *Prog, tname, rule string) {
 			}
 			// (b) hidden half of a wide rune: SetDirty(x+1, y, true) under width > 1
 			// (in draw, or in the helper that paints a row for it: the site is recognised by what it does)
-			if kind == "SetDirty(true)" && (f.Parent() == nil || f.Parent().Name() != "drawCell") {
+			if kind == "SetDirty(true)" && !deferredFromDrawCell(p, tname, f) {
 				arg := derefCell(cc.Args[1])
 				okArg := false
 				if bo, ok := arg.(*ssa.BinOp); ok && bo.Op == token.ADD {
@@ -297,7 +297,7 @@ func c13ShowPath(c *Ctx, p *Prog, tname, rule string) {
 				}
 			}
 			// (c) the auto-margin corner trick inside drawCell's deferred closure
-			if kind == "SetDirty(true)" && f.Parent() != nil && f.Parent().Name() == "drawCell" {
+			if kind == "SetDirty(true)" && deferredFromDrawCell(p, tname, f) {
 				arg := derefCell(cc.Args[1])
 				okArg := false
 				if bo, ok := arg.(*ssa.BinOp); ok && bo.Op == token.SUB {
@@ -307,7 +307,7 @@ func c13ShowPath(c *Ctx, p *Prog, tname, rule string) {
 				}
 				// the closure is deferred only under the bottom-right-corner test
 				okReg := false
-				eachInstr(f.Parent(), func(in2 ssa.Instruction) {
+				eachInstr(p.Fn("tcell:(*"+tname+").drawCell"), func(in2 ssa.Instruction) {
 					if d, ok := in2.(*ssa.Defer); ok && staticCallee(&d.Call) == f {
 						for _, a := range guardsAt(in2.Block()) {
 							if (strings.Contains(a.L, "t.w") || strings.Contains(a.R, "t.w")) && a.Op == "==" {
@@ -528,4 +528,20 @@ func fieldBase(v ssa.Value) ssa.Value {
 // sameCellAddr: both are the same SSA value (one `&cells[i]` computed once and used for several fields).
 func sameCellAddr(a, b ssa.Value) bool {
 	return a != nil && b != nil && a == b
+}
+
+// deferredFromDrawCell: f runs as a deferred call of the painter's drawCell — the function literal of
+// the corner trick, or a method it was turned into.
+func deferredFromDrawCell(p *Prog, tname string, f *ssa.Function) bool {
+	dc := p.Fn("tcell:(*" + tname + ").drawCell")
+	if dc == nil || f == nil {
+		return false
+	}
+	hit := false
+	eachInstr(dc, func(in ssa.Instruction) {
+		if d, ok := in.(*ssa.Defer); ok && staticCallee(&d.Call) == f {
+			hit = true
+		}
+	})
+	return hit
 }
